@@ -285,6 +285,28 @@ def _clean_case(args):
                                filtered=False, basins=True)
             cli.compress(path_in=d / "o.rtdc", path_out=d / "oc.rtdc")
             targets = [d / "o.rtdc", d / "oc.rtdc"]
+        elif route == "object-after-config-read":
+            # a measurement without fluorescence, checked as an open dataset
+            # object after its configuration has been looked at
+            ev = gen.make_events(N, seed=seed, special=False,
+                                 feats=["deform", "area_um", "frame",
+                                        "index_online", "image", "mask",
+                                        "bright_avg", "pos_x"])
+            nofl = d / "nofl.rtdc"
+            gen.write_rtdc(nofl, ev, meta=gen.complete_meta(N, fl=False))
+            with dclab.new_dataset(nofl) as ds:
+                for sec in ("fluorescence", "online_contour", "qpi",
+                            "user", "calculation"):
+                    ds.config[sec].get("no such key")
+                viol, aler, info = run_checker(ds)
+                if viol:
+                    out.append(violation(
+                        CK, "false-violation", case,
+                        f"{route}: a dataset without fluorescence, checked "
+                        f"as an object after reading its configuration "
+                        f"sections, is reported with violations {viol}",
+                        {"route": route}))
+            targets = [nofl]
         elif route == "export-child":
             with dclab.new_dataset(src) as ds:
                 ds.filter.manual[0] = False
@@ -467,7 +489,8 @@ def _corrupt_case(args):
 def run(ctx):
     scratch = ctx.scratch
     routes = ["writer", "export-hdf5", "export-filtered",
-              "export-subset-basins", "export-child",
+              "export-subset-basins", "object-after-config-read",
+              "export-child",
               "export-dict", "compress", "repack", "condense", "join",
               "split"]
     res = par.pmap(_clean_case, [(r, ctx.seed, scratch) for r in routes])
